@@ -31,8 +31,8 @@ Proof.
       * intros Hwf. inversion Hwf as [|? ? Hc Hcs]; subst.
         destruct (need =? len c) eqn:E2; [assumption|]. constructor; [|assumption].
         intro H. apply (f_equal len) in H. rewrite len_drop, len_nil in H. lia.
-    + specialize (IH (need - len c) true t).
-      destruct (read_full_aux (need - len c) true cs t) as [[r e] rest].
+    + specialize (IH (need - len c) (got || negb (len c =? 0)) t).
+      destruct (read_full_aux (need - len c) (got || negb (len c =? 0)) cs t) as [[r e] rest].
       destruct IH as (Hc & He & Hw). repeat split.
       * cbn [concat]. rewrite Hc, app_assoc. reflexivity.
       * intros H. rewrite len_app, (He H). lia.
